@@ -1,5 +1,194 @@
+import Anything.Lemmas.Mul4
 import Anything.Model.Eval
-import Anything.Spec.Quantity
+import Anything.Props.C02
+/-!
+# C04 — products, quotients and integer powers of quantities are dimensionally exact
+
+`siQ q` is the specification's reading of a model quantity: its value in base SI
+units and its dimension vector (`Spec.SI`). The theorems say that `*`, `/` and `^`
+of the evaluator refine `Spec.SI.qmul`, `qdiv`, `qpow` — for **all** rational
+magnitudes and **all** compounds of proportional units, whichever derived units
+`reconstruct` chooses to display.
+-/
+
 namespace Anything.Props.C04
-theorem C04_placeholder : True := trivial
+open Anything Anything.Eval Anything.Spec
+
+/-- SI reading of a quantity. -/
+def siQ (q : Numeric) : SI.Q := ⟨q.value * SI.scale (semOf q.unit), SI.dims (semOf q.unit)⟩
+
+theorem siQ_eq (q : Numeric) :
+    siQ q = ⟨q.value * scaleC q.unit, vecOf (fun b => dimsFn q.unit (.base b))⟩ := by
+  simp [siQ, scale_semOf, dims_semOf]
+
+/-- The one other outcome of `*` and `/` in a build with debug assertions: the
+`Compound::new` assertion (a zero power left behind by `reconstruct`). -/
+def DebugAssert (cfg : Cfg) (r : Except EvalErr Numeric × List Desc) (d : List Desc) : Prop :=
+  cfg.debug = true ∧ r = (.error (.panic "Compound::new zero power"), d)
+
+/-- **C04 (product).** -/
+theorem C04_mul (cfg : Cfg) (s e : Nat) (a b : Numeric) (d : List Desc)
+    (pa : Proportional a.unit) (pb : Proportional b.unit) :
+    (∃ r, mulDiv cfg s e a b false d = (.ok r, d) ∧ siQ r = SI.qmul (siQ a) (siQ b)) ∨
+      DebugAssert cfg (mulDiv cfg s e a b false d) d := by
+  unfold mulDiv
+  simp only [Bool.false_eq_true, ↓reduceIte]
+  rcases mul_spec cfg.debug a.unit b.unit 1 a.value b.value pa pb with ⟨res, hres, spec⟩ | ⟨hd, hres⟩
+  · left
+    obtain ⟨u, av, bv⟩ := res
+    rw [hres]
+    refine ⟨_, rfl, ?_⟩
+    rw [siQ_eq, siQ_eq, siQ_eq]
+    simp only [SI.qmul, vecOf_add, SI.Q.mk.injEq]
+    refine ⟨?_, ?_⟩
+    · have := spec.val; simp only [zpow_one] at this; rw [← this]
+    · congr 1; funext bb; have := spec.dims (.base bb); simp only at this; rw [this]; ring
+  · right
+    exact ⟨hd, by rw [hres]; rfl⟩
+
+/-- **C04 (quotient).** Division by a non-zero quantity. -/
+theorem C04_div (cfg : Cfg) (s e : Nat) (a b : Numeric) (d : List Desc)
+    (pa : Proportional a.unit) (pb : Proportional b.unit) (hb : b.value ≠ 0) :
+    (∃ r, mulDiv cfg s e a b true d = (.ok r, d) ∧ SI.qdiv (siQ a) (siQ b) = .ok (siQ r)) ∨
+      DebugAssert cfg (mulDiv cfg s e a b true d) d := by
+  unfold mulDiv
+  simp only [↓reduceIte]
+  rcases mul_spec cfg.debug a.unit b.unit (-1) a.value b.value pa pb with ⟨res, hres, spec⟩ | ⟨hd, hres⟩
+  · left
+    obtain ⟨u, av, bv⟩ := res
+    rw [hres]
+    have hbv : bv ≠ 0 := fun h => hb (spec.rhs_zero.mp h)
+    simp only [hbv, ↓reduceIte]
+    refine ⟨_, rfl, ?_⟩
+    have hsb := scale_ne_zero b.unit
+    rw [siQ_eq, siQ_eq, siQ_eq]
+    have hne : b.value * scaleC b.unit ≠ 0 := mul_ne_zero hb hsb
+    simp only [SI.qdiv, hne, ↓reduceIte, vecOf_smul, vecOf_add, Except.ok.injEq, SI.Q.mk.injEq]
+    refine ⟨?_, ?_⟩
+    · have := spec.val
+      simp only [zpow_neg, zpow_one] at this
+      rw [div_eq_mul_inv, div_eq_mul_inv, ← this]
+    · congr 1; funext bb; have := spec.dims (.base bb); simp only at this; rw [this]
+  · right
+    exact ⟨hd, by rw [hres]; rfl⟩
+
+/-- **C04 (division by zero).** A zero divisor — in whatever unit — is an error. -/
+theorem C04_div_zero (cfg : Cfg) (s e : Nat) (a b : Numeric) (d : List Desc)
+    (pa : Proportional a.unit) (pb : Proportional b.unit) (hb : b.value = 0) :
+    mulDiv cfg s e a b true d = (.error (.err .divideByZero s e), d) ∨
+      DebugAssert cfg (mulDiv cfg s e a b true d) d := by
+  unfold mulDiv
+  simp only [↓reduceIte]
+  rcases mul_spec cfg.debug a.unit b.unit (-1) a.value b.value pa pb with ⟨res, hres, spec⟩ | ⟨hd, hres⟩
+  · left
+    obtain ⟨u, av, bv⟩ := res
+    rw [hres]
+    have hbv : bv = 0 := spec.rhs_zero.mpr hb
+    simp only [hbv, ↓reduceIte]
+    rfl
+  · right
+    exact ⟨hd, by rw [hres]; rfl⟩
+
+theorem powLoop_eq (b : Rat) (n : Nat) (v : Rat) : powLoop b n v = v * b ^ n := by
+  induction n generalizing v with
+  | zero => simp [powLoop]
+  | succ k ih => rw [powLoop, ih]; ring
+
+theorem scaleC_checkedPow (u : Compound) (n : Int) : scaleC (Compound.checkedPow u n) = scaleC u ^ n := by
+  unfold Compound.checkedPow
+  rw [scaleC_filter_nz, scaleC_map_pow]
+
+theorem dimsFn_checkedPow (u : Compound) (n : Int) (k : UnitKey) :
+    dimsFn (Compound.checkedPow u n) k = n * dimsFn u k := by
+  unfold Compound.checkedPow
+  rw [dimsFn_filter_nz, dimsFn_map_pow]
+
+/-- **C04 (integer power).** For an exponent `n` within the `i32` range (larger
+exponents of a quantity with a unit are refused as a bad argument). -/
+theorem C04_pow (s e : Nat) (a : Numeric) (n : Int) (d : List Desc)
+    (hn : -2147483648 ≤ n ∧ n ≤ 2147483647) (ha : a.unit ≠ []) :
+    match SI.qpow (siQ a) n with
+    | .ok q => ∃ r, Eval.pow s e a { value := n, unit := [] } d = (.ok r, d) ∧ siQ r = q
+    | .error _ => Eval.pow s e a { value := n, unit := [] } d = (.error (.err .divideByZero s e), d) := by
+  have hsc := scale_ne_zero a.unit
+  have hempty : a.unit.isEmpty = false := by cases hu : a.unit <;> simp_all
+  have hr1 : ¬ (n < -2147483648) := by omega
+  have hr2 : ¬ (n > 2147483647) := by omega
+  unfold Eval.pow
+  simp only [List.isEmpty_nil, Bool.not_true, Bool.false_eq_true, ↓reduceIte, Rat.den_intCast,
+    ne_eq, not_true_eq_false, Rat.num_intCast, hempty, Bool.not_false, Bool.true_and, hr1, hr2,
+    decide_false, Bool.or_self]
+  rw [siQ_eq]
+  simp only [SI.qpow, mul_eq_zero, hsc, or_false]
+  by_cases hn0 : n = 0
+  · subst hn0
+    simp only [lt_self_iff_false, and_false, ↓reduceIte, pure]
+    refine ⟨_, rfl, ?_⟩
+    rw [siQ_eq]
+    simp only [scaleC_checkedPow, arith_zpow_eq, zpow_zero, mul_one, vecOf_smul, SI.Q.mk.injEq, true_and]
+    congr 1; funext bb; rw [dimsFn_checkedPow]
+  · simp only [hn0, ↓reduceIte]
+    by_cases hv : a.value = 0
+    · simp only [hv, true_and, ↓reduceIte]
+      by_cases hneg : n < 0
+      · simp only [hneg, ↓reduceIte]; rfl
+      · simp only [hneg, ↓reduceIte, pure]
+        refine ⟨_, rfl, ?_⟩
+        rw [siQ_eq]
+        simp only [scaleC_checkedPow, arith_zpow_eq, zero_mul, vecOf_smul, SI.Q.mk.injEq]
+        refine ⟨?_, ?_⟩
+        · rw [zero_zpow n hn0]
+        · congr 1; funext bb; rw [dimsFn_checkedPow]
+    · simp only [hv, false_and, ↓reduceIte, pure]
+      refine ⟨_, rfl, ?_⟩
+      rw [siQ_eq]
+      simp only [scaleC_checkedPow, arith_zpow_eq, vecOf_smul, SI.Q.mk.injEq, powLoop_eq, one_mul]
+      refine ⟨?_, ?_⟩
+      · rw [mul_zpow]
+        congr 1
+        by_cases hneg : n < 0
+        · simp only [hneg, ↓reduceIte, one_div, inv_pow]
+          have : n = -(n.natAbs : Int) := by omega
+          conv_rhs => rw [this]
+          rw [zpow_neg, zpow_natCast]
+        · simp only [hneg, ↓reduceIte]
+          have : n = (n.natAbs : Int) := by omega
+          conv_rhs => rw [this]
+          rw [zpow_natCast]
+      · congr 1; funext bb; rw [dimsFn_checkedPow]
+
+/-- **C04 (zero power).** Any quantity to the power zero is the dimensionless one. -/
+theorem C04_pow_zero (s e : Nat) (a : Numeric) (d : List Desc) :
+    Eval.pow s e a { value := 0, unit := [] } d = (.ok { value := 1, unit := [] }, d) := by
+  unfold Eval.pow
+  have : Compound.checkedPow a.unit 0 = [] := by
+    unfold Compound.checkedPow
+    rw [List.filter_eq_nil_iff]
+    intro x hx
+    simp only [List.mem_map] at hx
+    obtain ⟨y, _, rfl⟩ := hx
+    simp
+  cases hu : a.unit with
+  | nil => simp [pure]
+  | cons x xs =>
+    have this' : Compound.checkedPow (x :: xs) 0 = [] := hu ▸ this
+    simp [this', pure]
+
+/-- **C04 (a power is a repeated product).** At the SI level `a^(n+1) = a^n · a`. -/
+theorem C04_pow_succ (q : SI.Q) (n : Nat) :
+    SI.qpow q ((n : Int) + 1) = (SI.qpow q n).map (fun p => SI.qmul p q) := by
+  have h1 : ¬ ((n : Int) + 1 < 0) := by omega
+  have h2 : ¬ ((n : Int) < 0) := by omega
+  obtain ⟨v, dv⟩ := q
+  simp only [SI.qpow, h1, h2, and_false, ↓reduceIte, Except.map, SI.qmul, arith_zpow_eq, Except.ok.injEq,
+    SI.Q.mk.injEq]
+  refine ⟨?_, ?_⟩
+  · rw [show ((n : Int) + 1) = ((n + 1 : Nat) : Int) by push_cast; rfl, zpow_natCast, zpow_natCast, pow_succ]
+  · simp only [SI.DimVec.smul, SI.DimVec.add]
+    apply List.ext_getElem
+    · simp
+    · intro i h1 h2
+      simp only [List.getElem_map, List.getElem_zipWith]
+      ring
+
 end Anything.Props.C04
